@@ -22,7 +22,7 @@ comp  : ["b", 0|1, fl] | ["i", z, fl] | ["f", z8, fl] (value z8/8) | ["c", re8, 
         fl in "py" "np" "np32"; which in "none" "f16" "c128" "npstr" "list"
 
 observations
-  ["ok"] | ["err", kind] | ["val", [ccomp..], is_vector, refindex|None] | ["rows", [[ccomp..]..]] | ["keys", [z..]]
+  ["ok"] | ["err", kind] | ["val", [ccomp..], is_vector, refindex|None] | ["rows", [[ccomp..]..] (, shape, dtype kind for as_array)] | ["keys", [z..]]
   | ["nat", n] | ["bool", b] | ["grow", n, [[a, len]..]] | ["growerr", kind, n, [[a, len]..]]
   | ["snap", [[a, [row|["oob"]..]]..]] | ["other", text]
 canonical comp (read back, cast to the attribute's own type): ["b",0|1] ["i",z] ["f",z8] ["c",re8,im8] ["s",text]
@@ -259,9 +259,13 @@ def run_case(case):
                 at = cont.get_attribute(nm(op[1]))
                 arr = at.as_array() if (not isinstance(at._data, dict) and len(out) % 2) else at.as_array(len(cont))
                 n = len(cont)
-                arr = np.asarray(arr)
+                if not isinstance(arr, np.ndarray):
+                    out.append(["other", "as_array returned a %s" % type(arr).__name__])
+                    continue
+                kind = {"b": "bool", "i": "int", "u": "int", "f": "float", "c": "complex", "U": "str"}.get(arr.dtype.kind, arr.dtype.kind)
                 refs.append(("arr", arr, at.elemsize))
-                out.append(["rows", rows_of(arr, at)])
+                # the contents row by row, and the shape / dtype kind of the array as it was returned
+                out.append(["rows", rows_of(arr, at), [int(x) for x in arr.shape], kind])
             elif name == "len":
                 out.append(["nat", int(len(cont.get_attribute(nm(op[1]))))])
             elif name == "iter":
